@@ -132,6 +132,12 @@ def oracle_constructor(rng, out, forced=None):
                  dict(kind="keep", location=list(loc))]
         if rng.random() < 0.5:
             descs.reverse()
+        if rng.random() < 0.4:
+            # the gene alone, protein read from the input, its own first codon kept (policy "keep"), any table: whatever
+            # the first codon is, the input is compatible by definition
+            descs = [dict(kind="cds", location=loc, table=rng.choice(hard.TABLES), start_codon="keep", translation=None)]
+            # (a start-codon policy requires the gene to begin with a start codon of its table)
+            seq = hard.plant_coding_region(rng, left + hard.rand_seq(rng, 3 * m) + right, descs[0])
         known_compatible, share = True, True
     given = seq if rng.random() < 0.7 else seq.lower()
     if forced is not None:
@@ -275,7 +281,7 @@ def search(ctx, budget, hints):
         d_ = dict(sequence="".join(unit_), constraints=[dict(kind="gcwin", mini=k_ / 100.0, maxi=1.0, window=100, location=None, as_string=True)],
                   objectives=[], settings={}, np_seed=k_)
         n += vlib.limited(lambda: oracle_noop(rng, d_, out), 10, 0, tstats)
-    for _ in range(600 * budget):
+    for _ in range(900 * budget):
         n += vlib.limited(lambda: oracle_constructor(rng, out), 10, 0, tstats)
     cex, hist = solverprops.shrink_best(out)
     hist.update({"skipped:" + k: v for k, v in tstats.items()})
